@@ -30,6 +30,8 @@ def run(call):
     from openfisca_core import periods
     try:
         mode = call["mode"]
+        if mode == "groups":
+            return run_groups(call)
         tbs = system()
         if mode == "two-values":
             key = call["key"]
@@ -59,3 +61,77 @@ def run(call):
     except BaseException as ex:
         return {"kind": "raise", "exc": type(ex).__name__, "mro": [c.__name__ for c in type(ex).__mro__],
                 "msg": str(ex)[:300], "tb": traceback.format_exc()[-1500:]}
+
+
+def expected_groups(person_ids, households):
+    """what the statement says: declared memberships and roles; every person left out gets a new group of their own with
+    the first role; returns (group ids, memberships by person, role keys by person) or 'refuse'"""
+    declared = list(households.keys())
+    mem, role = {}, {}
+    for gi, (hid, h) in enumerate(households.items()):
+        for plural, subroles in (("parents", ["first_parent", "second_parent"]), ("children", None)):
+            lst = h.get(plural, [])
+            if isinstance(lst, str):
+                lst = [lst]
+            if plural == "parents" and len(lst) > 2:
+                return "refuse"
+            for k, p in enumerate(lst):
+                if p not in person_ids or p in mem:
+                    return "refuse"
+                mem[p] = gi
+                role[p] = subroles[k] if subroles else "child"
+    n_new = 0
+    own = {}
+    for p in person_ids:
+        if p not in mem:
+            own[p] = len(declared) + n_new
+            n_new += 1
+    return declared, mem, role, own
+
+
+def run_groups(call):
+    """situations with group memberships through the real builder"""
+    from openfisca_core.simulations import SimulationBuilder
+    from openfisca_core import errors
+    n = 0
+    try:
+        for sit in call["situations"]:
+            n += 1
+            tbs = system()
+            person_ids = list(sit["persons"].keys())
+            exp = expected_groups(person_ids, sit.get("households", {}))
+            try:
+                sim = SimulationBuilder().build_from_entities(tbs, sit)
+            except errors.SituationParsingError:
+                if exp == "refuse":
+                    continue
+                return {"kind": "return", "value": {"ok": False, "problem": "a well-formed situation was refused", "situation": sit}}
+            if exp == "refuse":
+                return {"kind": "return", "value": {"ok": False, "problem": "an ill-formed situation was accepted", "situation": sit}}
+            declared, mem, role, own = exp
+            hh = sim.populations["household"]
+            got_mem = [int(x) for x in hh.members_entity_id]
+            got_role = [r.key for r in hh.members_role]
+            problems = []
+            if list(sim.persons.ids) != person_ids or sim.persons.count != len(person_ids):
+                problems.append(f"persons ids/count {list(sim.persons.ids)} / {sim.persons.count}")
+            if hh.count != len(declared) + len(own):
+                problems.append(f"{hh.count} groups for {len(declared)} declared + {len(own)} persons left out")
+            if list(hh.ids)[:len(declared)] != declared:
+                problems.append(f"group ids {list(hh.ids)}")
+            for i, p in enumerate(person_ids):
+                if p in mem:
+                    if got_mem[i] != mem[p] or got_role[i] != role[p]:
+                        problems.append(f"{p}: group {got_mem[i]} role {got_role[i]}, declared group {mem[p]} role {role[p]}")
+                else:
+                    if got_mem[i] < len(declared) or got_role[i] != "first_parent":
+                        problems.append(f"{p} was left out of households but is in group {got_mem[i]} ({got_role[i]}), not in a new group of their own")
+            new_groups = [got_mem[i] for i, p in enumerate(person_ids) if p not in mem]
+            if len(set(new_groups)) != len(new_groups):
+                problems.append("two persons left out share a group")
+            if problems:
+                return {"kind": "return", "value": {"ok": False, "problems": problems[:3], "situation": sit}}
+        return {"kind": "return", "value": {"ok": True, "situations": n}}
+    except BaseException as ex:
+        return {"kind": "raise", "exc": type(ex).__name__, "mro": [c.__name__ for c in type(ex).__mro__],
+                "msg": (str(ex)[:300] + " on " + str(sit)[:300]), "tb": traceback.format_exc()[-1500:]}
